@@ -85,7 +85,18 @@ func addJSPoisonable(t *tape.Tape, w *World, decls D, o GenOpts, fields []string
 	}
 	idx := len(fields) - 1
 	obj := decls["FINAL_OUTPUT"].(D)["object"].(D)
-	obj["kjs"] = cf("javascript", D{"const": "if (a == '" + BoomValue + "') { throw new Error('boom'); } a"}, D{"const": "a"}, D{"xpath": fields[idx]})
+	thrown := "new Error('boom')"
+	if t.Chance("gen.kjs.thrown-object", 1, 3) {
+		// what is thrown has a string conversion of its own, which reads the call's argument: the
+		// failure text has to be produced while the call still owns its runtime
+		thrown = "{ toString: function() { return 'boom:' + a.length } }"
+		if t.Bool("gen.kjs.thrown-object.throws") {
+			// ... or fails itself
+			thrown = "{ toString: function() { throw new Error('no description') } }"
+		}
+		w.SetTag("js.thrown-object-with-tostring", "1")
+	}
+	obj["kjs"] = cf("javascript", D{"const": "if (a == '" + BoomValue + "') { throw " + thrown + "; } a"}, D{"const": "a"}, D{"xpath": fields[idx]})
 	w.JSPoisonIdx = idx + 1
 	w.UsesJS = true
 }
@@ -115,6 +126,13 @@ func genXML(t *tape.Tape, o GenOpts) *World {
 		w.SetTag("xml.namespaces", "1")
 	}
 	m := Model{Fields: append([]string{}, fn...), IntField: fn[sh.IntIdx], Ctx: []string{"../hdr/h0"}}
+	// the last field's value may be stored as an attribute of an element that has text but no child elements
+	attrField := -1
+	if len(fn)-1 != sh.IntIdx && len(fn) > 2 && t.Chance("xml.leaf-attribute", 1, 5) {
+		attrField = len(fn) - 1
+		m.Fields[attrField] = fn[attrField] + "/@u"
+		w.SetTag("xml.leaf-attribute", fmt.Sprint(attrField))
+	}
 	if useAttr {
 		m.Fields = append(m.Fields, "@a0")
 	}
@@ -123,7 +141,7 @@ func genXML(t *tape.Tape, o GenOpts) *World {
 	}
 	decls, js, ext := GenDecls(t, m, declOptsOf(o))
 	addPoisonable(decls, m.IntField)
-	addJSPoisonable(t, w, decls, o, fn)
+	addJSPoisonable(t, w, decls, o, m.Fields[:len(fn)])
 	addAncestorJS(w, decls, o)
 	target := "/root/rec"
 	if sh.NumericFilter {
@@ -155,6 +173,10 @@ func genXML(t *tape.Tape, o GenOpts) *World {
 				if wname, ok := xmlWritten[el]; ok {
 					el = wname
 				}
+				if i == attrField {
+					sb.WriteString("<" + el + ` u="` + xmlEsc.Replace(v) + `">t</` + el + ">")
+					continue
+				}
 				sb.WriteString("<" + el + ">" + xmlEsc.Replace(v) + "</" + el + ">")
 			}
 		}
@@ -164,6 +186,12 @@ func genXML(t *tape.Tape, o GenOpts) *World {
 				sb.WriteString("<" + gn[j] + ">" + xmlEsc.Replace(v) + "</" + gn[j] + ">")
 			}
 			sb.WriteString("</item>")
+		}
+		switch r.NS {
+		case 1:
+			sb.WriteString(`<note xmlns="uri://verif/p">n</note>`)
+		case 2:
+			sb.WriteString(`<z:note xmlns:z="uri://verif/p">n</z:note>`)
 		}
 		sb.WriteString("</rec>")
 		return sb.String()
@@ -183,6 +211,16 @@ func genXML(t *tape.Tape, o GenOpts) *World {
 	}
 	w.Suffix += "</root>"
 	drawRecs(t, w, sh, o)
+	if xmlWritten != nil && t.Chance("xml.ns.inner", 1, 2) {
+		// namespace declarations inside records: each is scoped to the element that carries it
+		for i := range w.LRecs {
+			if t.Chance("xml.ns.inner.rec", 1, 3) {
+				w.LRecs[i].NS = 1 + t.Intn("xml.ns.inner.kind", 2)
+				w.RecTexts[i] = w.Render(w.LRecs[i])
+				w.SetTag("xml.namespace-declared-inside-record", "1")
+			}
+		}
+	}
 	if MaybeScalarOutput(t, decls, m, o) {
 		w.SetTag("scalar-output", "1")
 	}
